@@ -181,3 +181,23 @@ def ec_mul(k, P, a, p):
     P = ec_add(P, P, a, p)
     k >>= 1
   return R
+
+
+# Multipliers of the truncated-LCG emulation, {state bits: multiplier}: L'Ecuyer, "Tables of linear congruential generators of different sizes and good
+# lattice structure", Math. Comp. 68 (1999), Table 4 (m = 2^e, c odd) and, for 256 bits, Steele & Vigna, "Computationally easy, spectrally good
+# multipliers for congruential pseudorandom number generators" (2022).  Transcribed once from the pinned tree (the papers are not available offline);
+# every entry is = 5 (mod 8), the full-period condition for modulus 2^e with an odd increment, which the checker re-verifies.
+TRUNC_LCG_MULTIPLIERS = {
+    32: 2891336453,
+    34: 52765661,
+    35: 22475205,
+    36: 12132445,
+    40: 330169576829,
+    48: 181465474592829,
+    60: 454339144066433781,
+    63: 9219741426499971445,
+    64: 2862933555777941757,
+    96: 75564983892026345434470042133,
+    128: 47026247687942121848144207491837418733,
+    256: 92535799708728563004421432684894516311017097014017594320373447727772634342485,
+}
